@@ -66,7 +66,10 @@ def gen_program(rng, tier):
             blocks.append({"var": rng.choice(["ii", "jj", "tid", "ipart"]), "chain": b > 0 and rng.random() < 0.5, "ops": ops})
         lim = rng.choice(["n", "n", "n", "n-1", "n/2", "n-3"])
         kernels.append({"name": f"kern{kk}", "limit": lim, "blocks": blocks, "filler": rng.sample(range(1000), rng.randint(0, 4)), "scalar": rng.choice([None, "Float64", "Int64"]), "restrict": rng.random() < 0.5})
-    return {"built": built, "includes": includes, "helpers": helpers, "kernels": kernels, "omp": rng.choice([2, 2, "auto"]), "block_size": rng.choice([1, 2, 3, 4, 32, 33, 48, 100, 200, 256]), "nops": rng.choice([2, 4, 6, 10]) if tier == "quick" else rng.choice([6, 12, 20])}
+    # control characters that str.splitlines() treats as line ends although they are ordinary C white
+    # space / comment text (form feeds separate pages in GNU-style sources)
+    ws = rng.choice(["\x0c", "\x0b", "\x1c", "\x1d", "\x1e"]) if rng.random() < 0.25 else None
+    return {"ws": ws, "built": built, "includes": includes, "helpers": helpers, "kernels": kernels, "omp": rng.choice([2, 2, "auto"]), "block_size": rng.choice([1, 2, 3, 4, 32, 33, 48, 100, 200, 256]), "nops": rng.choice([2, 4, 6, 10]) if tier == "quick" else rng.choice([6, 12, 20])}
 
 
 def _gen_op(rng, includes, helpers=()):
@@ -95,8 +98,10 @@ def render(prog):
     L = []
     filler = []
 
+    ws = prog.get("ws") or " "
+
     def fill(tag):
-        line = f"/* unannotated filler {tag}: a = b*c + d; x[i] */"
+        line = f"/* unannotated filler {tag}: a = b*c{ws}+ d; x[i] */"
         L.append(line)
         filler.append(line)
 
